@@ -21,6 +21,26 @@ Theorem restore_undoes :
 Proof. exact (restore_undoes_if_tables_ok snapshot_tables_ok). Qed.
 Print Assumptions restore_undoes.
 
+(* every error exit of the fallible region of c_rule runs restore_snapshot *)
+Theorem error_exits_restore : exits_restore = true.
+Proof. vm_compute. reflexivity. Qed.
+Print Assumptions error_exits_restore.
+
+(* hence: whichever error exit a failing rule takes, and whatever it did before,
+   the compiler state it leaves behind equals the state before the rule on
+   every field that must be restored *)
+Theorem failing_rule_leaves_no_trace :
+  forall e, In e fallible_exits ->
+  forall s0 ws, wf s0 -> shape_ok s0 ->
+    Forall (good (vnum (s0 F_next_pattern_id))) ws ->
+    forall f, must_restore f = true -> exit_state (snd e) s0 ws f = s0 f.
+Proof.
+  intros e He s0 ws Hwf Hsh Hws f Hf.
+  pose proof error_exits_restore as H. unfold exits_restore in H. rewrite forallb_forall in H.
+  rewrite (H e He). exact (restore_undoes s0 ws Hwf Hsh Hws f Hf).
+Qed.
+Print Assumptions failing_rule_leaves_no_trace.
+
 (* no field that build() reads is classified as tolerated junk by accident:
    the vectors and maps that the scanner indexes by id must all be restored *)
 Theorem indexed_tables_are_restored :
